@@ -496,12 +496,15 @@ class GenI(object):
             # (now and then a local variable with the name of the imported root package)
             pool = I_POOL + ([self.pk] if self.rng.random() < 0.5 else [])
             return {"t": "assign", "targets": self.rng.sample(pool, self.rng.randint(1, 2)), "e": self.expr(depth)}
-        if r < 0.70:
+        if r < 0.66:
             return self.imp(accepted_only)
-        if r < 0.88 and depth > 0:
+        if r < 0.82 and depth > 0:
             return self.defn(depth - 1, accepted_only)
-        if r < 0.95 and depth > 0:
-            return {"t": "seq", "a": {"t": "expr", "e": self.expr(depth - 1)}, "b": self.stmt(depth - 1, accepted_only), "style": "if"}
+        if r < 0.97 and depth > 0:
+            # a compound statement (it opens no scope): the statement b - often an import - sits in its body, in an exception handler,
+            # in a finally clause, under a case of a match statement
+            return {"t": "seq", "a": {"t": "expr", "e": self.expr(depth - 1)}, "b": self.stmt(depth - 1, accepted_only),
+                    "style": self.rng.choice(["if", "else", "except", "finally", "with", "while", "match", "tryelse"])}
         return {"t": "skip"}
 
     def defn(self, depth, accepted_only):
@@ -543,8 +546,24 @@ def render_istmt(s, ind, pk):
             ps = ps[:-1] + ["%s=%s" % (ps[-1], render_iexpr(s["header"]))]
         return [pad + "def %s(%s):" % (s["name"], ", ".join(ps))] + render_istmt(s["body"], ind + 1, pk)
     if t == "seq":
-        if s.get("style") == "if":
-            return [pad + "if %s:" % render_iexpr(s["a"]["e"])] + render_istmt(s["b"], ind + 1, pk)
+        st = s.get("style")
+        if st in ("if", "else", "except", "finally", "with", "while", "match", "tryelse"):
+            a, b = render_iexpr(s["a"]["e"]), render_istmt(s["b"], ind + 1, pk)
+            if st == "if":
+                return [pad + "if %s:" % a] + b
+            if st == "else":
+                return [pad + "if %s:" % a, pad + "    pass", pad + "else:"] + b
+            if st == "except":
+                return [pad + "try:", pad + "    " + a, pad + "except Exception:"] + b
+            if st == "finally":
+                return [pad + "try:", pad + "    " + a, pad + "finally:"] + b
+            if st == "tryelse":
+                return [pad + "try:", pad + "    " + a, pad + "except Exception:", pad + "    pass", pad + "else:"] + b
+            if st == "with":
+                return [pad + "with %s:" % a] + b
+            if st == "while":
+                return [pad + "while %s:" % a] + b
+            return [pad + "match %s:" % a, pad + "    case _:"] + render_istmt(s["b"], ind + 2, pk)
         return render_istmt(s["a"], ind, pk) + render_istmt(s["b"], ind, pk)
     if t == "expr":
         return [pad + render_iexpr(s["e"])]
@@ -623,6 +642,9 @@ IMPORT_CASES = [
      "def f1(%(pk)s=5):\n    from %(pk)s import ma\n    from %(pk)s.mb import fa as fb_, XA as xb\n    %(pk)s = 3\n    return term('f1', ma.fa(), fb_(), xb, %(pk)s)\n", True),
     ("functions referenced, not called, through names imported in the body",
      "from ddsverif_rt import hof\n\ndef f1():\n    from %(pk)s.ma import fa as r\n    from %(pk)s import mb as tool\n    return term('f1', hof(r), hof(tool.fa))\n", True),
+    ("imports in an exception handler (the fallback when an accelerated version is missing) and under a case of a match statement",
+     "def f1():\n    try:\n        raise ImportError('no accelerated version')\n    except ImportError:\n        from %(pk)s import ma as impl\n"
+     "    match 1:\n        case _:\n            from %(pk)s.mb import fa as slow\n    return term('f1', impl.fa(), slow())\n", True),
     ("imports of variables and functions, relative forms",
      "def f1():\n    from .ma import fa as a1, XA as x1\n    from . import mb\n    return term('f1', a1(), x1, mb.fa(), mb.XA)\n", True),
 ]
@@ -820,6 +842,55 @@ def run_imports_in_package_init(ctx, res, thorough):
             for k in list(sys.modules):
                 if k.split(".")[0] == pkg:
                     del sys.modules[k]
+
+
+LAZY_SCRIPT = ("import sys, json\nsys.path.insert(0, %(repo)r)\nsys.path.insert(0, %(proj)r)\nimport dds\nfrom dds.structures import DDSException\n"
+               "dds.set_store('local', internal_dir=%(si)r, data_dir=%(sd)r)\ndds.accept_module('lazypk')\n%(pre)s\nimport lazypk.pipe\n"
+               "try:\n    out = ['value', dds.keep('/lazy/price', lazypk.pipe.price, 5)]\n"
+               "except DDSException as e:\n    out = ['refused', e.error_code.name if e.error_code is not None else None]\n"
+               "print('RESULT ' + json.dumps({'dds': out, 'plain': lazypk.pipe.price(5)}))\n")
+
+
+def run_lazy_submodule(ctx, res, thorough):
+    """a sub-module of an accepted package that only the body of the kept function imports: when a fresh process analyses the function
+    the sub-module is not loaded yet. Every run (one process each, one store; the sub-module edited in between) returns the value of
+    plain execution or is refused - a stored result of the old code is never served"""
+    import subprocess
+    proj = tempfile.mkdtemp(prefix="ddsverif_c01z_")
+    try:
+        os.makedirs(os.path.join(proj, "lazypk"))
+        open(os.path.join(proj, "lazypk", "__init__.py"), "w").close()
+        with open(os.path.join(proj, "lazypk", "pipe.py"), "w") as fh:
+            fh.write("import dds\n\ndef price(qty):\n    from lazypk import rates\n    import lazypk.rates as r2\n    from lazypk.rates import fee\n    return qty * rates.RATE + fee() + r2.RATE\n")
+        outs = []
+        for step, (rate, fee, pre) in enumerate([(3, 1, ""), (10, 1, ""), (10, 7, ""), (10, 7, "import lazypk.rates"), (4, 7, "import lazypk.rates"), (4, 9, "")]):
+            with open(os.path.join(proj, "lazypk", "rates.py"), "w") as fh:
+                fh.write("RATE = %d\n\ndef fee():\n    return %d\n" % (rate, fee))
+            shutil.rmtree(os.path.join(proj, "lazypk", "__pycache__"), ignore_errors=True)
+            with open(os.path.join(proj, "main.py"), "w") as fh:
+                fh.write(LAZY_SCRIPT % {"repo": common.REPO, "proj": proj, "si": os.path.join(proj, "si"), "sd": os.path.join(proj, "sd"), "pre": pre})
+            cp = subprocess.run([sys.executable, "-B", os.path.join(proj, "main.py")], capture_output=True, text=True, cwd=proj, timeout=300)
+            lines = [l for l in cp.stdout.splitlines() if l.startswith("RESULT ")]
+            o = json.loads(lines[-1][7:]) if lines else {"error": (cp.stderr.strip().splitlines() or ["no output"])[-1][:300]}
+            outs.append(o)
+            res.evaluations += 1
+            res.count("lazy_submodule_runs")
+            res.nontrivial("lazy sub-module run %d" % step)
+            if "error" in o:
+                res.violations.append({"what": "a pipeline whose kept function imports a sub-module of its package in its body fails outside dds: %s" % o["error"],
+                                       "input": {"step": step, "rate": rate, "fee": fee}, "kf": None})
+                break
+            if o["dds"][0] == "refused":
+                res.count("lazy_submodule_runs_refused")
+                continue
+            if o["dds"][1] != o["plain"]:
+                res.violations.append({"what": "a kept function that imports, in its body, a sub-module of its accepted package that nothing has loaded yet: run %d of the "
+                                               "script (RATE = %d, fee() returns %d%s) is served %r, plain execution gives %r (all runs: %s)" % (
+                                                   step, rate, fee, ", the script imports the sub-module first" if pre else "", o["dds"][1], o["plain"], outs),
+                                       "input": {"step": step, "rate": rate, "fee": fee, "runs": outs}, "kf": None})
+                break
+    finally:
+        shutil.rmtree(proj, ignore_errors=True)
 
 
 def analysed_names_full(modname, fname):
